@@ -312,7 +312,22 @@ int main(int argc, char **argv)
           cvm::clear_error();
           g->read_restart(is);
           bool bad = (!is) || (cvm::get_error() != COLVARS_OK);
-          if (bad) std::cout << "ERR\n"; else print_grid(*g);
+          if (bad) std::cout << "ERR\n"; else {
+            // + what the grid read back does one bin past each edge: wrapped index, or -9 when outside (non-periodic)
+            std::ostringstream edge;
+            edge << " E " << 2 * g->nd;
+            for (size_t d = 0; d < g->nd; d++) {
+              for (int side = 0; side < 2; side++) {
+                std::vector<int> ix(g->nd, 0);
+                ix[d] = side ? g->nx[d] : -1;
+                bool e = g->wrap_detect_edge(ix);
+                edge << " " << ((e || !g->index_ok(ix)) ? -9 : ix[d]);
+              }
+            }
+            std::ostringstream gl; std::streambuf *old = std::cout.rdbuf(gl.rdbuf()); print_grid(*g); std::cout.rdbuf(old);
+            std::string gs = gl.str(); if (!gs.empty() && gs[gs.size() - 1] == '\n') gs.erase(gs.size() - 1);
+            std::cout << gs << edge.str() << "\n";
+          }
         }
         delete g;
       }
